@@ -16,6 +16,7 @@ const (
 	sigError     = 3
 	sigLookahead = 4
 	sigPartition = 5
+	sigFinal     = 6
 )
 
 func computeRuleClasses(t *Tables, g *Grammar) []int {
@@ -97,9 +98,19 @@ func partitionStatesByAction(t *Tables, ruleClass []int, numStates int) ([]int, 
 	partition := make([]int, numStates)
 	partitions := container.NewIntSliceSet()
 
+	// The parser stops as soon as it reaches a final state, so final states can only be merged
+	// with other final states.
+	final := container.NewBitSet(numStates)
+	for _, s := range t.FinalStates {
+		final.Set(s)
+	}
+
 	// Create the initial partitions
 	for i := 0; i < numStates; i++ {
 		sig := stateSignature(i)
+		if final.Get(i) {
+			sig = append([]int{sigFinal}, sig...)
+		}
 		partition[i] = partitions.Insert(sig)
 	}
 	return partition, partitions
